@@ -7,7 +7,7 @@ Driver for property C06.  One case per line, one answer per line.
 
   S <guid> <script> <read>*           scripted mechanisms; script = `-` or items `A` / `R` / `C<hex>` joined by `,`
   R <guid> <env> <read>*              the real mechanisms; env = `creds;passwd;dirs;files;now;ctx;sha`
-                                        creds  `-` or uid
+                                        creds  `-` or uid (may be negative)
                                         passwd `-` or name:uid:gid:home joined by `,` (name, home hex)
                                         dirs   `-` or home:a|g|b joined by `,`
                                         files  `-` or home:ID.TIME.COOKIE/ID.TIME.COOKIE.. joined by `,` (empty file: `home:`)
@@ -101,7 +101,10 @@ def runReal (ws : List String) : String :=
   | guid :: env :: reads =>
     match env.splitOn ";" with
     | [creds, passwd, dirs, files, now, ctx, sha] =>
-      let cfg : EnvCfg := ⟨if creds == "-" then none else some creds.toNat!, parsePasswd passwd, now.toNat!, rndFn,
+      -- now = seconds, with a trailing `+` when time.time() has a fractional part
+      let frac := now.endsWith "+"
+      let nowS := if frac then (now.dropEnd 1).toString else now
+      let cfg : EnvCfg := ⟨if creds == "-" then none else some creds.toInt!, parsePasswd passwd, nowS.toNat!, frac, rndFn,
                            parseSha sha, unhx ctx⟩
       let w : RealWorld := ⟨cfg, parseDirs dirs, parseFiles files, 0⟩
       let p0 : Proto RealWorld Inst := Proto.init (unhx guid) w
